@@ -26,7 +26,8 @@ typedef struct {
 } cm_board_t;
 typedef struct { char id[24]; uint8_t bit; int has_initial; uint8_t initial; } cm_tper_t;
 typedef struct { char id[24]; uint8_t addrl, addrh; int steps; int ncal; int cal[10]; int nper; cm_tper_t per[32]; } cm_train_t;
-typedef struct { int nb; cm_board_t b[CM_MAXB]; int nt; cm_train_t t[CM_MAXT]; char board_txt[6000], track_txt[12000], train_txt[8000]; } cm_model_t;
+typedef struct { int hex_case;   /* 0: as written by the emitter, 1: all hex digits upper case, 2: all lower case */
+	int nb; cm_board_t b[CM_MAXB]; int nt; cm_train_t t[CM_MAXT]; char board_txt[6000], track_txt[12000], train_txt[8000]; } cm_model_t;
 
 void cm_add_function_train(cm_model_t *m);  /* adds train3 with one function f<bit> on every function slot (bits 0-4, 8-31) */
 void cm_std(cm_model_t *m);                 /* the standard model: master (root, track output, booster), oc1, lc1, booster2 (second track output) */
